@@ -791,6 +791,14 @@ impl<P: RuntimeProvider + Send + Sync> SqliteZoneHandler<P> {
                     //  RR.
 
                     // zone     rrset    rr       Add to an RRset
+                    // 3.4.2.2: "If the TYPE is SOA and there is no Zone SOA RR ... the Update RR is
+                    //  ignored": inside the zone only the origin ever holds an SOA. (Decided on the
+                    //  name alone so that journal replay, which loads the apex SOA into an empty
+                    //  zone through this path, takes the same decision as the live update did.)
+                    if rr.record_type() == RecordType::SOA && rr_name != *self.origin() {
+                        info!("ignoring SOA add away from the origin: {rr:?}");
+                        continue;
+                    }
                     info!("upserting record: {rr:?}");
                     let upserted = self.in_memory.upsert(rr.clone(), serial).await;
 
